@@ -601,6 +601,11 @@ class MailboxSet(MailboxSetInterface[MailboxData]):
         if subscribed and ('\r' in name or '\n' in name):
             # the subscriptions file holds one name per line
             raise MailboxNotFound(name)
+        try:
+            name.encode('utf-8')
+        except UnicodeEncodeError as exc:
+            # a lone surrogate, which a file name may hold but the file not
+            raise MailboxNotFound(name) from exc
         async with Subscriptions.with_write(self._path) as subs:
             subs.set(name, subscribed)
 
